@@ -29,6 +29,7 @@ class SharedMutex {
  protected:
   void LockHelper();
   void SharedLockHelper();
+  void NotifyHelper();
 
   FiberQueue _shared_queue;
   FiberQueue _exclusive_queue;
